@@ -3,6 +3,9 @@
 //!   order <0 lifo|1 fifo|2 every-other>
 //!   rounds <n>
 //!   threads <t>             (feature `threaded`): each round is run by t threads concurrently
+//!   foreign <bytes>         before every round the probe itself maps <bytes> (kept for good, touched): a
+//!                           long-lived foreign mapping between the allocator's mappings, so that new segments
+//!                           are not adjacent to old ones; these bytes are subtracted from the reported VmSize
 //!   go
 //! Output: `r <round> <VmSize pages> <bad>` per round (`bad` = number of blocks whose bytes were found
 //! altered / not zeroed / misaligned), then `done`.
@@ -25,7 +28,16 @@ const SYS_READ: usize = 0;
 const SYS_WRITE: usize = 1;
 const SYS_OPEN: usize = 2;
 const SYS_CLOSE: usize = 3;
+const SYS_MMAP: usize = 9;
 const SYS_EXIT_GROUP: usize = 231;
+
+#[inline(always)]
+unsafe fn sys6(nr: usize, a: usize, b: usize, c: usize, d: usize, e: usize, f: usize) -> isize {
+    let ret: isize;
+    core::arch::asm!("syscall", inlateout("rax") nr as isize => ret, in("rdi") a, in("rsi") b, in("rdx") c,
+        in("r10") d, in("r8") e, in("r9") f, lateout("rcx") _, lateout("r11") _, options(nostack));
+    ret
+}
 
 static mut OUT: [u8; 1 << 16] = [0; 1 << 16];
 static mut OUT_LEN: usize = 0;
@@ -230,6 +242,8 @@ pub fn main() -> i32 {
     let mut order = 0usize;
     let mut rounds = 1usize;
     let mut threads = 1usize;
+    let mut foreign = 0usize;
+    let mut foreign_pages = 0u64;
     for line in script.split(|c| *c == b'\n') {
         let mut w = line.split(|c| *c == b' ').filter(|x| !x.is_empty());
         match w.next() {
@@ -250,9 +264,20 @@ pub fn main() -> i32 {
             Some(b"order") => order = w.next().and_then(parse_usize).unwrap_or(0),
             Some(b"rounds") => rounds = w.next().and_then(parse_usize).unwrap_or(1),
             Some(b"threads") => threads = w.next().and_then(parse_usize).unwrap_or(1),
+            Some(b"foreign") => foreign = w.next().and_then(parse_usize).unwrap_or(0),
             Some(b"go") => {
                 let blocks: &'static [Blk] = unsafe { &BLOCKS[..nb] };
                 for r in 1..=rounds {
+                    if foreign != 0 {
+                        let len = (foreign + 4095) & !4095;
+                        let p = unsafe { sys6(SYS_MMAP, 0, len, 3, 0x22, usize::MAX, 0) };
+                        if p < 0 && p > -4096 {
+                            s("foreign-mmap-failed\n");
+                            die(7);
+                        }
+                        unsafe { *(p as usize as *mut u8) = 1 };
+                        foreign_pages += (len / 4096) as u64;
+                    }
                     let bad;
                     #[cfg(feature = "threaded")]
                     {
@@ -279,7 +304,7 @@ pub fn main() -> i32 {
                     }
                     s("r");
                     num(r as u64);
-                    num(vmsize_pages());
+                    num(vmsize_pages().saturating_sub(foreign_pages));
                     num(bad as u64);
                     s("\n");
                 }
